@@ -41,7 +41,7 @@ def apply_edit(d, m):
         path = os.path.join(d, e['file'])
         s = open(path).read()
         cnt = s.count(e['find'])
-        if cnt != e.get('count', 1):
+        if cnt != e.get('count', 1):  # noqa
             return 'edit anchor %r occurs %d times in %s' % (
                 e['find'][:50], cnt, e['file'])
         s = s.replace(e['find'], e['repl'])
